@@ -40,7 +40,27 @@ var patCases = []patCase{
 	{`^[a-z]$`, []string{"q"}, []string{"", "qq", "Q"}},
 }
 
-func genListRules(h *vh.H, kind string) *ListRules {
+// enumFilterName: a default filter for an enum field. Mostly a declared option (or UNSPECIFIED) in
+// one of the spellings the compiler accepts (short name, or with the enum prefix); rarely
+// (1 in 10) something that is no option: wrong case, unknown name, a prefix of another enum
+// (inadmissible declaration: compile error, oracle skipped).
+func enumFilterName(h *vh.H, s *Spec) string {
+	names := []string{"UNSPECIFIED"}
+	for _, o := range s.EOpts {
+		names = append(names, s.enumShort(o))
+	}
+	n := vh.Pick(h, names)
+	switch {
+	case h.Chance(1, 10):
+		return vh.Pick(h, []string{strings.ToLower(n), "a", "b1", "second", "OTHER_" + n, n + "_X"})
+	case h.Chance(1, 3):
+		return s.enumPrefix() + n
+	}
+	return n
+}
+
+func genListRules(h *vh.H, s *Spec) *ListRules {
+	kind := s.Kind
 	if !h.Chance(1, 4) {
 		return nil
 	}
@@ -48,6 +68,13 @@ func genListRules(h *vh.H, kind string) *ListRules {
 	filt := func() {
 		l.Filterable = h.Chance(3, 4)
 		if h.Chance(1, 3) {
+			if kind == "enum" {
+				l.DefaultFilters = []string{enumFilterName(h, s)}
+				if h.Chance(1, 3) {
+					l.DefaultFilters = append(l.DefaultFilters, enumFilterName(h, s))
+				}
+				return
+			}
 			l.DefaultFilters = []string{vh.Pick(h, []string{"a", "b1", "VALUE"})}
 			if h.Chance(1, 3) {
 				l.DefaultFilters = append(l.DefaultFilters, "second")
@@ -313,11 +340,15 @@ func genSpec(h *vh.H, name string, wide bool) *Spec {
 			s.Desc = ps(vh.Pick(h, descs))
 		}
 		if !s.Arr || h.Chance(1, 6) {
-			s.LR = genListRules(h, s.Kind)
+			s.LR = genListRules(h, s)
 		}
 		if s.Kind == "str" && h.Chance(1, 12) {
 			s.SFmt = ps(vh.Pick(h, []string{"email", "uri", "uuid"}))
 		}
+	} else if s.Kind == "enum" && h.Chance(1, 3) {
+		// the rules stream carries list rules only where the compiler inspects them: the default
+		// filters of an enum field must name options of the enum (else: compile error)
+		s.LR = genListRules(h, s)
 	}
 	return s
 }
